@@ -2615,9 +2615,12 @@ V(id='c37-gmpy-mul-int-ignores-rounding', prop='C37', file='mpmath/libmp/libmpf.
          ("    return normalize(sign, man, exp, bitcount(man), prec, rnd)\n", "    return normalize(sign, man, exp, bitcount(man), prec, round_nearest)\n")],
   expect='fire:Y-R9:gmpy_mpf_mul_int')
 
-# ---- C13 third hunt: E-X4 powm1 exact integer path (fix a043bdb) ----
-V(id='c13-powm1-no-exact-integer-path', prop='C13', file='mpmath/functions/functions.py',
-  old="    if ctx.isint(y):\n        n = abs(int(y))\n", new="    if False and ctx.isint(y):\n        n = abs(int(y))\n",
+# ---- C13 third hunt: E-X4 powm1 re-examines a zero of the summation (fixes a043bdb, 3eacf38) ----
+V(id='c13-powm1-returns-summation-directly', prop='C13', file='mpmath/functions/functions.py',
+  old="    w = ctx.sum_accurately(lambda: iter([x**y, -1]), 1)\n", new="    return ctx.sum_accurately(lambda: iter([x**y, -1]), 1)\n    w = 0\n",
+  expect='fire:E-X4:powm1')
+V(id='c13-powm1-zero-not-reexamined', prop='C13', file='mpmath/functions/functions.py',
+  old="    if not w and ctx.isint(y):\n        n = abs(int(y))\n", new="    if False and ctx.isint(y):\n        n = abs(int(y))\n",
   expect='fire:E-X4:powm1')
 V(id='c13-powm1-exact-path-fixed-precision', prop='C13', file='mpmath/functions/functions.py',
   old="                ctx.prec = max(orig, n*(span+2)) + 10\n", new="                ctx.prec = 2*orig + 10\n",
@@ -2625,6 +2628,26 @@ V(id='c13-powm1-exact-path-fixed-precision', prop='C13', file='mpmath/functions/
 V(id='c13-powm1-exact-path-ignores-exponent', prop='C13', file='mpmath/functions/functions.py',
   old="                ctx.prec = max(orig, n*(span+2)) + 10\n", new="                ctx.prec = max(orig, span+2) + 10\n",
   expect='fire:E-X4:powm1')
+V(id='c13-powm1-exact-value-discarded', prop='C13', file='mpmath/functions/functions.py',
+  old="                w = p - one\n                if y < 0:\n                    w = -w/p\n", new="                v = p - one\n                if y < 0:\n                    v = -v/p\n",
+  expect='fire:E-X4:powm1')
 V(id='c13-benign-powm1-exact-path-more-bits', prop='C13', file='mpmath/functions/functions.py',
   old="                ctx.prec = max(orig, n*(span+2)) + 10\n", new="                ctx.prec = max(orig, n*(span+2)) + 30\n",
   expect='silent')
+
+# ---- C40 second hunt: P-R6 / P-R3 constants copy and pickle by name (fix 95ee6d3) ----
+V(id='c40-constant-no-copy-hooks', prop='C40', file='mpmath/ctx_mp_python.py',
+  old="    def __copy__(self):\n        return self\n\n    def __deepcopy__(self, memo):\n        return self\n\n    def __reduce__(self):", new="    def __reduce__(self):",
+  expect='fire:P-R6:_constant')
+V(id='c40-constant-reduce-rebuilds-value', prop='C40', file='mpmath/ctx_mp_python.py',
+  old="        return (_constant_from_name, (self.name,))\n", new="        return (self.context.mpf, (self._mpf_,))\n",
+  expect='fire:P-R3:_constant.__reduce__')
+V(id='c40-constant-reduce-unguarded', prop='C40', file='mpmath/ctx_mp_python.py',
+  old="        if _named_constants.get(self.name) is not self:\n", new="        if False:\n",
+  expect='fire:P-R3:_constant.__reduce__')
+V(id='c40-constant-registry-not-filled', prop='C40', file='mpmath/__init__.py',
+  old="_ctx_mp_python._named_constants.update((c.name, c) for c in\n    list(mp.__dict__.values()) if isinstance(c, _ctx_mp_python._constant))\n", new="",
+  expect='fire:P-R3:_constant.__reduce__')
+V(id='c40-constant-deepcopy-new-object', prop='C40', file='mpmath/ctx_mp_python.py',
+  old="    def __deepcopy__(self, memo):\n        return self\n", new="    def __deepcopy__(self, memo):\n        return self.context.mpf(self)\n",
+  expect='fire:P-R3:_constant.__deepcopy__')
